@@ -20,6 +20,7 @@ const disjunctCap = 8
 
 var engTrace = os.Getenv("PCHECK_TRACE")
 var engDebug = os.Getenv("PCHECK_DEBUG") != ""
+var noLiveKeys = os.Getenv("PCHECK_NOLIVE") != "" // debugging aid: partition by all interesting values, live or not
 
 // Engine is the path-sensitive abstract interpreter for clients of parse.Input.
 type Engine struct {
@@ -95,6 +96,7 @@ type fnInfo struct {
 	order       []*ssa.BasicBlock
 	isHeader    map[*ssa.BasicBlock]bool
 	interesting []ssa.Value
+	liveKeys    map[*ssa.BasicBlock][]ssa.Value // interesting values live at the entry of a block (partition key)
 	labels      map[ssa.Instruction]string
 }
 
@@ -487,8 +489,62 @@ func (e *Engine) info(fn *ssa.Function) *fnInfo {
 			}
 		}
 	}
+	fi.liveKeys = liveInteresting(fn, fi.interesting)
 	e.finfo[fn] = fi
 	return fi
+}
+
+// liveInteresting: for every block, the partitioning values that are still read at or after its entry. A value that
+// is dead (the materialised condition of a `switch { case a || b: }` arm after its branch, a flag after its last
+// test) must not keep otherwise equal states apart: n dead booleans are 2^n partitions of every later block.
+func liveInteresting(fn *ssa.Function, interesting []ssa.Value) map[*ssa.BasicBlock][]ssa.Value {
+	out := map[*ssa.BasicBlock][]ssa.Value{}
+	if len(fn.Blocks) == 0 {
+		return out
+	}
+	for _, v := range interesting {
+		def := fn.Blocks[0]
+		if in, ok := v.(ssa.Instruction); ok {
+			def = in.Block()
+		}
+		refs := v.Referrers()
+		if refs == nil {
+			continue
+		}
+		live := map[*ssa.BasicBlock]bool{}
+		var markIn func(b *ssa.BasicBlock)
+		markIn = func(b *ssa.BasicBlock) {
+			if live[b] {
+				return
+			}
+			live[b] = true
+			if b == def {
+				return
+			}
+			for _, p := range b.Preds {
+				markIn(p)
+			}
+		}
+		for _, r := range *refs {
+			switch x := r.(type) {
+			case *ssa.DebugRef:
+			case *ssa.Phi:
+				for i, ed := range x.Edges {
+					if ed == v && i < len(x.Block().Preds) {
+						markIn(x.Block().Preds[i])
+					}
+				}
+			default:
+				markIn(r.Block())
+			}
+		}
+		for _, b := range fn.Blocks {
+			if live[b] {
+				out[b] = append(out[b], v)
+			}
+		}
+	}
+	return out
 }
 
 func argString(v ssa.Value) string {
@@ -750,7 +806,12 @@ func (e *Engine) run(fn *ssa.Function, entry *State, args []AbsVal) []exitState 
 			if back {
 				e.loopCheck(fi, ns, pb, to)
 			}
-			key := ns.key(fi.interesting)
+			var key string
+			if noLiveKeys {
+				key = ns.key(fi.interesting)
+			} else {
+				key = ns.key(fi.liveKeys[to])
+			}
 			if fi.isHeader[to] {
 				if back {
 					key += "|back"
